@@ -89,6 +89,8 @@ struct World {
   int cur_run;
   std::map<int, bool> ask_full, run_full, run_or;   // discovery: did -> asked full; run -> flag used / OR of asks served
   std::map<int, int> disc_done;
+  vector<int> pending_null;                   // NULL-callback requests not yet taken by a run
+  std::map<int, vector<int> > run_nulls;      // run -> NULL-callback requests it took (all waiting at its start)
 };
 static World *W;
 static void exec_ops(const vector<Op> &ops);
@@ -142,6 +144,7 @@ class Mock : public DiscoverableRDMControllerInterface {
   void StartDisc(bool full, RDMDiscoveryCallback *cb) {
     int run = nrun++;
     W->run_full[run] = full;
+    W->run_nulls[run].swap(W->pending_null);
     dout.push_back(std::make_pair(run, cb));
     NoteCall(full ? "X1" : "X0");
     if (!dscript.empty()) {
@@ -162,6 +165,13 @@ class Mock : public DiscoverableRDMControllerInterface {
     UIDSet uids;
     uids.AddUID(UID(1, run));
     cb->Run(uids);
+    // the NULL-callback requests this run took are satisfied by its completion
+    vector<int> &nulls = W->run_nulls[run];
+    for (size_t k = 0; k < nulls.size(); k++) {
+      if (W->disc_done[nulls[k]]++ > 0) W->ddup++;
+      W->run_or[run] = W->run_or[run] || W->ask_full[nulls[k]];
+    }
+    nulls.clear();
     W->cur_run = saved;
   }
 };
@@ -239,6 +249,15 @@ static void exec_op(const Op &o) {
       W->in_submit.erase(std::find(W->in_submit.begin(), W->in_submit.end(), id));
       // a request that had to be rejected must have completed inside the call
       if (expect && (W->completions.count(id) ? W->completions[id] : 0) == before) W->rj++;
+      break;
+    }
+    case 'f': case 'i': {   // discovery with a NULL callback (what olad's periodic discovery does)
+      if (!W->discov || W->destroying) break;
+      int did = W->next_did++;
+      W->ask_full[did] = (o.kind == 'f');
+      W->pending_null.push_back(did);
+      if (o.kind == 'f') W->dctl->RunFullDiscovery(NULL);
+      else W->dctl->RunIncrementalDiscovery(NULL);
       break;
     }
     case 'F': case 'I': {
